@@ -622,3 +622,11 @@ class SolutionLemma(Contract):
             Path(__file__).resolve().parent.parent / "lemmas" / "DecayODE.lean",
             {"PyVC.decay_concentration": "lemma_rate_equation_and_initial_condition_give_the_matrix_exponential_for_all_n"},
         )
+
+
+from contracts.common import FunctionAxiomsBase  # noqa: E402
+
+
+class FunctionAxioms(FunctionAxiomsBase):
+    abstract = False
+    prop = "C04"
